@@ -1076,6 +1076,9 @@ class Extractor:
             chunks.extend(body)
             if mspec.get('bottom'):
                 chunks.append(('raw', None, g(mspec['bottom']) + '\n'))
+            if self.canary and mspec.get('canary_bottom'):
+                # hand-written vacuity canaries for the preconditions of module-level lemmas: each must FAIL
+                chunks.append(('raw', None, g(mspec['canary_bottom']) + '\n'))
             if self.canary:
                 chunks.append(('raw', None, g('proof fn canary_axioms_in_scope() { assert(false); /*#CANARY:module:%s*/ }' % m) + '\n'))
             chunks.append(('raw', None, '} // mod %s\n' % m))
